@@ -31,15 +31,17 @@ def render(op, i):
     if k == 'open': return 'f.open();', 'open'
     if k in ('cm', 'sm'):
         _, b, ack, fo, s, a = op
-        args = [lit(b)] + (['send_ack: false'] if not ack else []) + (['frag_off: %d' % fo] if fo else []) + ov(s, a)
+        args = (['send_ack: false'] if not ack else []) + (['frag_off: %d' % fo] if fo else []) + ov(s, a) + [lit(b)]
         return 'f.%s_message(%s);' % ('client' if k == 'cm' else 'server', ', '.join(args)), '%s:%s:%d:%d:%s:%s' % (k, sh_hex(b), ack, fo, o(s), o(a))
     if k in ('cs', 'ss', 'crs', 'srs'):
         _, b, s, a = op
         name = {'cs': 'client_segment', 'ss': 'server_segment', 'crs': 'client_raw_segment', 'srs': 'server_raw_segment'}[k]
-        call = 'f.%s(%s)' % (name, ', '.join([lit(b)] + ov(s, a)))
-        return ('let r%d = %s;' % (i, call) if k in ('crs', 'srs') else call + ';'), '%s:%s:%s:%s' % (k, sh_hex(b), o(s), o(a))
+        call = 'f.%s(%s)' % (name, ', '.join(ov(s, a) + [lit(b)]))
+        src_dst = (ip(CL[0]), ip(SV[0])) if k == 'crs' else (ip(SV[0]), ip(CL[0]))
+        return ('ipv4::datagram(%s, %s, proto: 6, %s);' % (src_dst + (call,)) if k in ('crs', 'srs') else call + ';'), '%s:%s:%s:%s' % (k, sh_hex(b), o(s), o(a))
     if k in ('chdr', 'shdr'):
-        return 'let r%d = f.%s_hdr(bytes: %d);' % (i, 'client' if k == 'chdr' else 'server', op[1]), '%s:%d' % (k, op[1])
+        src_dst = (ip(CL[0]), ip(SV[0])) if k == 'chdr' else (ip(SV[0]), ip(CL[0]))
+        return 'ipv4::datagram(%s, %s, proto: 6, f.%s_hdr(bytes: %d));' % (src_dst + ('client' if k == 'chdr' else 'server', op[1])), '%s:%d' % (k, op[1])
     if k in ('ca', 'sa'):
         return 'f.%s_ack(%s);' % ('client' if k == 'ca' else 'server', ', '.join(ov(op[1], op[2]))), '%s:%s:%s' % (k, o(op[1]), o(op[2]))
     if k in ('chole', 'shole'):
@@ -57,6 +59,7 @@ def program(c0, s0, raw, ops):
 
 
 def check(c, c0, s0, raw, ops, tag):
+    if raw: ops = [o for o in ops if o[0] not in ('crs', 'srs', 'chdr', 'shdr')]
     src, enc = program(c0, s0, raw, ops)
     impl, model = progdiff.run_both(c, src)
     # C04 is about the TCP segment (seq/ack/flags/payload): compare from the TCP header on, checksum excluded
